@@ -11,7 +11,7 @@ use std::collections::BTreeSet;
 use std::panic::AssertUnwindSafe;
 use std::sync::Mutex;
 
-pub const ENTRIES: [&str; 8] = ["narsese", "chars", "multi1", "multi2", "truth", "budget", "stamp", "punctuation"];
+pub const ENTRIES: [&str; 9] = ["narsese", "chars", "multi1", "multi2", "multi_lines", "truth", "budget", "stamp", "punctuation"];
 
 fn kind(n: &Narsese) -> &'static str {
     match n {
@@ -47,10 +47,31 @@ pub fn run_entry(f: &F, entry: &str, s: &str) -> Result<String, String> {
                 cls(v.pop().unwrap(), |n| kind(n).to_string())
             }
             "multi2" => {
-                let v = f.e.parse_multi([s, s]);
+                // the inputs are supplied through an iterator that reports no size at all
+                let mut left = 2;
+                let v = f.e.parse_multi(std::iter::from_fn(move || {
+                    if left > 0 {
+                        left -= 1;
+                        Some(s)
+                    } else {
+                        None
+                    }
+                }));
                 assert_eq!(v.len(), 2, "parse_multi must return one result per input");
                 let mut out = String::new();
                 for r in v {
+                    out.push_str(&cls(r, |n| kind(n).to_string()));
+                    out.push('|');
+                }
+                out
+            }
+            "multi_lines" => {
+                // a whole text, one input per line (str::lines reports no upper size bound)
+                let n = s.lines().count();
+                let v = f.e.parse_multi(s.lines());
+                assert_eq!(v.len(), n, "parse_multi must return one result per input");
+                let mut out = String::new();
+                for r in v.into_iter().take(3) {
                     out.push_str(&cls(r, |n| kind(n).to_string()));
                     out.push('|');
                 }
@@ -218,7 +239,7 @@ pub fn run(run: &Run) {
          delete, duplicate, replace by / insert any alphabet token, cut inside a token) from ~150 \
          well-formed token lists incl. 8-deep towers, with and without spaces; G3: 512-char \
          repetitions of every token and token pair, bracket towers up to 64 deep terminated / \
-         unterminated / over-closed, overlong numbers; each through 8 entry points x 3 formats on 2 \
+         unterminated / over-closed, overlong numbers; each through 9 entry points x 3 formats on 2 \
          MiB stacks; G4: ParseError::new + Display for every (len, index) in 0..=12 x 0..=len+512; \
          distinct = distinct input strings (hashed)",
     );
